@@ -92,11 +92,10 @@ pub fn history<F: Fl, const ALPHA: u8, const SK: u8, const DEPTH: usize>(cap: u6
     let mut w = World::<F>::new(cap);
     set_world::<F>(&mut w);
     let mut m = Model::new(n);
-    // a reclamation-epoch announcement may be pending from the start (no effect on the model)
-    let epoch_pending: bool = kani::any();
-    if epoch_pending {
-        inject_epoch_pending::<F>(w.tx[0].as_ref().unwrap());
-    }
+    // a reclamation-epoch announcement becomes pending in front of a solver-chosen step (no effect
+    // on the model); 10 = never
+    let ep_step: u8 = kani::any();
+    kani::assume(ep_step <= 10);
     // Skeleton: the operation kind of every step is fixed (one alphabet = one skeleton in which the
     // operations recur in a mixed order); the solver decides for every step whether it is executed
     // or skipped, i.e. the harness covers every sub-sequence of the skeleton.  A free choice of
@@ -126,6 +125,11 @@ pub fn history<F: Fl, const ALPHA: u8, const SK: u8, const DEPTH: usize>(cap: u6
     let mut step = 0;
     while step < DEPTH {
         let c: u8 = skel[step];
+        if step as u8 == ep_step {
+            if let Some(tx) = w.tx[0].as_ref() {
+                inject_epoch_pending::<F>(tx);
+            }
+        }
         // Only traffic operations (send / receive / view) are optional.  Structural operations
         // (creating, converting, dropping handles) always run: a handle that exists on some paths
         // only makes allocation sizes and the Arc reference count symbolic, which does not fit into
@@ -406,8 +410,8 @@ hist!(c09_bc_a1, hk_c09_bc_a1, BcB, 1, 10, 1, 1, false);
 hist!(c09_bc_a2, hk_c09_bc_a2, BcB, 2, 10, 2, 2, false);
 hist!(c09_mp_a3, hk_c09_mp_a3, MpB, 3, 10, 1, 1, false);
 hist!(c09_bc_a3, hk_c09_bc_a3, BcB, 3, 10, 2, 2, false);
-hist!(c09_mp_a4, hk_c09_mp_a4, MpB, 4, 10, 2, 2, false);
-hist!(c09_bc_a4, hk_c09_bc_a4, BcB, 4, 10, 1, 1, false);
+hist!(c09_mp_a4, hk_c09_mp_a4, MpB, 4, 10, 1, 1, false);
+hist!(c09_bc_a4, hk_c09_bc_a4, BcB, 4, 10, 2, 2, false);
 hist!(c09_bc_a5, hk_c09_bc_a5, BcB, 5, 10, 2, 2, false);
 hist!(c09_bc_a2w, hk_c09_bc_a2w, BcB, 2, sk 1, 10, 1, 1, false);
 hist!(c09_mp_a1w, hk_c09_mp_a1w, MpB, 1, sk 1, 10, 1, 1, false);
